@@ -220,6 +220,13 @@ func (h *HyperLogLog32) UnmarshalBinary(b []byte) error {
 	if p < 4 || w32 <= p || len(register) != 1<<p {
 		return errors.New("card: register length does not match precision")
 	}
+	for _, r := range register {
+		// A register holds the position of the first set
+		// bit among the w32-p low bits of a hash.
+		if r > w32-p+1 {
+			return errors.New("card: register value out of range")
+		}
+	}
 	h.hash = hash
 	h.p = p
 	h.m = uint32(1) << p
